@@ -391,7 +391,40 @@ def unit_merge_all(U):
         U.prove("C16.assign_child#p%d" % p.index, "assign_child sets child.attributes['Parent'] to the parent's ID values and returns the child", [], z3.BoolVal(bool(ok)), {})
 
 
-UNITS = [("criteria", unit_criteria), ("finalize", unit_finalize), ("merge_body", unit_merge_body), ("children_bp", unit_children_bp), ("merge_all", unit_merge_all)]
+def unit_bounded_identical_lines(U):
+    """Bounded: the interval MULTISET counts: distinct stored features whose lines are character-identical (repeated exon lines
+    without an ID, filed as exon_1, exon_2) are separate children - children_bp sums each of them, merge_all relates each of them"""
+    import gffutils
+    import gffutils.feature as F_
+    fails, cases = [], 0
+    for intervals in (((1, 10), (1, 10), (8, 20), (40, 50)), ((5, 9), (5, 9), (5, 9)), ((1, 4), (6, 9), (6, 9), (30, 31))):
+        feats = [F_.Feature(seqid="c", source="s", featuretype="mRNA", start=1, end=100, strand="+", attributes={"ID": ["t"]})]
+        feats += [F_.Feature(seqid="c", source="s", featuretype="exon", start=a, end=b, strand="+", attributes={"Parent": ["t"]}) for a, b in intervals]
+        try:
+            db = gffutils.create_db(feats, ":memory:")
+            kids = list(db.children("t", featuretype="exon"))
+            cases += 1
+            plain = db.children_bp("t", child_featuretype="exon")
+            exp_plain = sum(b - a + 1 for a, b in intervals)
+            covered = set()
+            for a, b in intervals:
+                covered |= set(range(a, b + 1))
+            merged = db.children_bp("t", child_featuretype="exon", merge=True)
+            if len(kids) != len(intervals) or plain != exp_plain or merged != len(covered):
+                fails.append({"case": {"exons": intervals}, "expected": {"children": len(intervals), "children_bp": exp_plain, "children_bp(merge=True)": len(covered)},
+                              "observed": {"children": len(kids), "children_bp": plain, "children_bp(merge=True)": merged}})
+            cases += 1
+            res = db.merge_all(featuretypes_groups=("exon",))
+            for m in res:
+                want = sorted(c.id for c in m.children)
+                got = sorted(c.id for c in db.children(m.id, level=1))
+                if got != want:
+                    fails.append({"case": {"exons": intervals, "merged": m.id}, "expected": want, "observed": got})
+        except Exception as e:
+            fails.append({"case": {"exons": intervals}, "expected": "no exception", "observed": repr(e)})
+    U.bounded_result("C16.bounded.identical_lines", "children_bp and merge_all treat character-identical stored features as separate members", "3 interval multisets with repeated intervals", cases, fails)
+
+UNITS = [("bounded.identical_lines", unit_bounded_identical_lines), ("criteria", unit_criteria), ("finalize", unit_finalize), ("merge_body", unit_merge_body), ("children_bp", unit_children_bp), ("merge_all", unit_merge_all)]
 try:
     from standins import C16 as _S
     UNITS = UNITS + list(_S.UNITS)
